@@ -28,6 +28,9 @@ type setCase struct {
 	Files []string          `json:"files_b64"`
 	Msgs  map[string]string `json:"msgs_b64"` // full name -> wire bytes
 	Text  string            `json:"schema_text,omitempty"`
+	// Order: the order in which the message types are handed to the schema cache
+	// (what a cache returns can depend on what it was asked before)
+	Order []string `json:"order,omitempty"`
 }
 
 func laneCase(raw json.RawMessage) ([]vf.Failure, error) {
@@ -38,6 +41,25 @@ func laneCase(raw json.RawMessage) ([]vf.Failure, error) {
 	s, _, err := codecx.Case{Files: c.Files, Root: firstKey(c)}.BuildSchemaOnly()
 	if err != nil {
 		return nil, err
+	}
+	if len(c.Order) > 0 {
+		byName := map[string]protoreflect.MessageDescriptor{}
+		for _, md := range s.Msgs {
+			byName[string(md.FullName())] = md
+		}
+		var ordered []protoreflect.MessageDescriptor
+		for _, n := range c.Order {
+			if md := byName[n]; md != nil {
+				ordered = append(ordered, md)
+				delete(byName, n)
+			}
+		}
+		for _, md := range s.Msgs {
+			if byName[string(md.FullName())] != nil {
+				ordered = append(ordered, md)
+			}
+		}
+		s.Msgs = ordered
 	}
 	fails, _ := check(s, c)
 	return fails, nil
@@ -361,7 +383,49 @@ func check(s *codecx.Schema, c setCase) (fails []vf.Failure, built int) {
 			}
 		}
 	}
+	// one root cause, many symptoms: schema names flatten the nesting path with
+	// "_", so a top-level Foo_Bar and a nested Foo.Bar share one cache entry and
+	// each is then handled with the other's schema. Every failure of such a set is
+	// filed under one key (an open finding: the naming scheme is a design decision).
+	if len(fails) > 0 {
+		if a, b := flatNameCollision(s); a != "" {
+			return []vf.Failure{vf.Failf("schema-name|flattened-name-collision", "%s and %s are both named %s in the schema cache; first symptom: [%s] %s", a, b, strings.ReplaceAll(a[strings.Index(a, ":")+1:], ".", "_"), fails[0].Key, fails[0].Detail)}, built
+		}
+	}
 	return dedupe(fails), built
+}
+
+// flatNameCollision finds two declarations of one package whose nesting paths
+// joined with "_" are the same string.
+func flatNameCollision(s *codecx.Schema) (string, string) {
+	seen := map[string]string{}
+	var found [2]string
+	var walk func(pkg, prefix string, msgs protoreflect.MessageDescriptors, enums protoreflect.EnumDescriptors)
+	note := func(pkg, path string) {
+		key := pkg + ":" + strings.ReplaceAll(path, ".", "_")
+		full := pkg + ":" + path
+		if prev, ok := seen[key]; ok && prev != full && found[0] == "" {
+			found = [2]string{prev, full}
+		}
+		seen[key] = full
+	}
+	walk = func(pkg, prefix string, msgs protoreflect.MessageDescriptors, enums protoreflect.EnumDescriptors) {
+		for i := 0; i < msgs.Len(); i++ {
+			m := msgs.Get(i)
+			if m.IsMapEntry() {
+				continue
+			}
+			note(pkg, prefix+string(m.Name()))
+			walk(pkg, prefix+string(m.Name())+".", m.Messages(), m.Enums())
+		}
+		for i := 0; i < enums.Len(); i++ {
+			note(pkg, prefix+string(enums.Get(i).Name()))
+		}
+	}
+	for _, fd := range s.FDs {
+		walk(string(fd.Package()), "", fd.Messages(), fd.Enums())
+	}
+	return found[0], found[1]
 }
 
 // pruneOneofs clears all but the first populated field of every message whose
@@ -513,6 +577,9 @@ func TestArbitrary(t *testing.T) {
 			s = s2
 		}
 		c := setCase{Files: s.Case(dynamicpb.NewMessage(s.Msgs[0]), "").Files, Msgs: map[string]string{}}
+		for _, md := range s.Msgs {
+			c.Order = append(c.Order, string(md.FullName()))
+		}
 		ctx := s.MsgCtx(false)
 		// Any payloads are drawn only from types that reflect: a payload of a type
 		// J5 cannot represent makes the outer encode fail by design.
